@@ -2,7 +2,7 @@
 # runs every claimed quick check and validates MANIFEST + evidence against the schemas
 cd /verif
 for p in $(python3 -c "import json;print(' '.join(c['property_id'] for c in json.load(open('MANIFEST.json'))['checks']))"); do
-  /usr/bin/time -f "  ($p took %es)" ./check $p --tier quick | tail -3
+  /usr/bin/time -f "  ($p took %es)" ./check $p --tier ${TIER:-quick} ${EXTRA:-} | tail -3
 done
 .venv/bin/python - <<'PY'
 import json, jsonschema, glob
